@@ -68,7 +68,8 @@ def gen_candidate(rng, ms, tag):
         w = p2[ax] - p1[ax]
         p1[ax] = pmax[ax] + 2 * cell[ax]
         p2[ax] = p1[ax] + w
-    return dict(tag=tag, p1=[float(x) for x in p1], p2=[float(x) for x in p2])
+    return dict(tag=tag, p1=[float(x) for x in p1], p2=[float(x) for x in p2],
+                ctol=rng.choice([None, None, 1e-3, 0.3, 0.5, 5.0, 0.0]))
 
 
 def scaled_spec(ms, s):
@@ -167,6 +168,21 @@ def cases(rng, tier):
     for _ in range(20 * N):
         ms = fieldio.gen_mesh_spec(rng, max_cells=80, nmax=6)
         yield dict(kind="name", mesh=ms, subs=tc.gen_subs(rng, ms, rng.randint(1, 3)))
+    # decimal nanometre cells, 1e5 .. 1e6 cells away from the origin, subregions ONE cell thick (oracle only: nothing
+    # is representable): named extraction, single-layer range selections and re-attachment after an in-place move
+    for _ in range(12 * N):
+        nd = rng.choice([1, 2, 3, 3])
+        n = [rng.randint(2, 5) for _ in range(nd)]
+        cell = [rng.choice([1.0, 2.0, 2.5, 3.0, 5.0, 0.7]) * 1e-9 for _ in range(nd)]
+        off = [rng.choice([-1, 1]) * rng.randint(10 ** 5, 10 ** 6) for _ in range(nd)]
+        thin = []
+        for j in range(rng.randint(1, 3)):
+            ax = rng.randrange(nd)
+            lo = [rng.randint(0, k - 1) for k in n]
+            hi = [rng.randint(l + 1, k) for l, k in zip(lo, n)]
+            hi[ax] = lo[ax] + 1
+            thin.append([f"t{j}", lo, hi, ax])
+        yield dict(kind="farsel", n=n, cell=cell, off=off, thin=thin, sub=rng.getrandbits(32))
     for _ in range(40 * N):
         spec = tc.gen_object_spec(rng, "mesh")
         if not spec.get("subs"):
@@ -201,6 +217,61 @@ def build(case):
     return fieldio.build_mesh(ms, subregions=subs or None)
 
 
+def run_farsel(case, obs, fail):
+    import random
+    rng = random.Random(case["sub"])
+    n, cell, off = case["n"], case["cell"], case["off"]
+    nd = len(n)
+    p1 = [o * c for o, c in zip(off, cell)]
+    p2 = [a + k * c for a, k, c in zip(p1, n, cell)]
+    subs = {nm: df.Region(p1=[a + l * c for a, l, c in zip(p1, lo, cell)], p2=[a + h * c for a, h, c in zip(p1, hi, cell)])
+            for nm, lo, hi, _ in case["thin"]}
+    try:
+        m = df.Mesh(p1=p1, p2=p2, n=n, subregions=subs)
+    except Exception as e:
+        obs["tags"].append("farsel:mesh-rejected")     # acceptance of inexact boxes is the setter's tolerant test, not judged here
+        return obs
+    obs["tags"].append("farsel:built")
+    close = lambda a, b, ax: abs(float(a) - float(b)) <= 1e-6 * cell[ax]
+    for nm, lo, hi, ax in case["thin"]:
+        try:
+            g = m[nm]
+        except Exception as e:
+            fail(f"mesh[{nm!r}] of a subregion one cell thick along axis {ax}, {off[ax]} cells from the origin, raised {type(e).__name__}: {str(e)[:120]}")
+            continue
+        if [int(k) for k in g.n] != [h - l for l, h in zip(lo, hi)]:
+            fail(f"mesh[{nm!r}].n = {list(map(int, g.n))}, expected {[h - l for l, h in zip(lo, hi)]}")
+        # the range selection that keeps exactly the subregion's own layer
+        d = m.region.dims[ax]
+        a = p1[ax] + (lo[ax] + 0.3) * cell[ax]
+        b = p1[ax] + (lo[ax] + 0.6) * cell[ax]
+        try:
+            g = m.sel(**{d: (a, b)})
+        except Exception as e:
+            fail(f"range selection of one layer (axis {ax}, layer {lo[ax]}, {off[ax]} cells from the origin) raised {type(e).__name__}: {str(e)[:120]}")
+            continue
+        if int(g.n[ax]) != 1:
+            fail(f"range selection inside layer {lo[ax]} of axis {ax} keeps {int(g.n[ax])} layers")
+        if nm not in g.subregions:
+            fail(f"range selection of layer {lo[ax]} along axis {ax} dropped subregion {nm!r}, which occupies that layer")
+        else:
+            r = g.subregions[nm]
+            want = (p1[ax] + lo[ax] * cell[ax], p1[ax] + hi[ax] * cell[ax])
+            if not (close(r.pmin[ax], want[0], ax) and close(r.pmax[ax], want[1], ax)):
+                fail(f"range selection: subregion {nm!r} clipped to {float(r.pmin[ax])!r}..{float(r.pmax[ax])!r}, expected {want}")
+    # in-place move by another far vector, then the held subregions attached again
+    v = [rng.choice([-1, 1]) * rng.randint(10 ** 5, 10 ** 6) * c for c in cell]
+    try:
+        m.translate(v, inplace=True)
+        m.subregions = dict(m.subregions)
+        for nm in subs:
+            m[nm]
+    except Exception as e:
+        fail(f"after an in-place translation by {v} the mesh's own subregions are refused / cannot be extracted: {type(e).__name__}: {str(e)[:120]}")
+    obs["nontrivial"] = True
+    return obs
+
+
 def run_impl(case):
     del tc.ARG_CHANGED[:]
     obs = {"oracle": [], "tags": ["kind:" + case["kind"]]}
@@ -211,13 +282,18 @@ def run_impl(case):
         o = c13.run_impl(dict(obj=case["obj"], ops=case["ops"]))
         o["tags"] = obs["tags"] + o["tags"]
         return o
+    if kind == "farsel":
+        return run_farsel(case, obs, fail)
     m = build(case)
     obs["mesh"] = fieldio.mesh_json(m)
     tc.check_subinv(m, fail, "initial mesh")
     s = case.get("scale", 1.0)
     if kind == "setter":
         before = tc.snap(m)
-        cand = {f"c{i}": df.Region(p1=[x * s for x in c["p1"]], p2=[x * s for x in c["p2"]], dims=rng_dims(i), units=["q"] * len(c["p1"]))
+        # a candidate's OWN tolerance factor (loose ones included) has no say: the mesh region's decides, the setter
+        # overwrites the candidate's
+        cand = {f"c{i}": df.Region(p1=[x * s for x in c["p1"]], p2=[x * s for x in c["p2"]], dims=rng_dims(i), units=["q"] * len(c["p1"]),
+                                   **({"tolerance_factor": c["ctol"]} if c.get("ctol") is not None else {}))
                 for i, c in enumerate(case["cand"])}
         obs["cand"] = [dict(fieldio.region_json(r), name=k) for k, r in cand.items()]
         tags = [c["tag"] for c in case["cand"]]
